@@ -122,6 +122,20 @@ def simplify(atoms, box=None):
         if lo is not None and hi is not None and lo == hi:
             out.append(rel_atom(q - Poly.const(lo), "=="))
             continue
+        if box is not None and (lo is not None or hi is not None or g["ne"]) and len(q.m) == 1:
+            # a constrained integer symbol with at most four values left: the value set, the same spelling that two
+            # paths `x == a`, `x == b` get when merged (`flags > 1` rejected  ==  `flags != 0 && flags != 1` rejected)
+            (mono, coef), = q.m.items()
+            if coef == 1 and len(mono) == 1 and " " not in mono[0]:
+                from .prover import poly_interval
+                qlo3, qhi3 = poly_interval(q, {s_: box.get(s_, (None, None)) for s_ in q.syms()})
+                elo = qlo3 if lo is None else (lo if qlo3 is None else max(lo, qlo3))
+                ehi = qhi3 if hi is None else (hi if qhi3 is None else min(hi, qhi3))
+                if elo is not None and ehi is not None and 1 <= ehi - elo <= 3 and elo == int(elo) and ehi == int(ehi):
+                    left = [v for v in range(int(elo), int(ehi) + 1) if v not in g["ne"]]
+                    if len(left) >= 2:
+                        rest.append(("switch", mono[0], "in", tuple(left)))
+                        continue
         if lo is not None:
             out.append(rel_atom(q - Poly.const(lo), ">="))
         if hi is not None:
@@ -130,6 +144,30 @@ def simplify(atoms, box=None):
             if (lo is not None and d < lo) or (hi is not None and d > hi):
                 continue
             out.append(rel_atom(q - Poly.const(d), "!="))
+    # character-class constraints on the same region: one atom with the intersection
+    within = {}
+    rest2 = []
+    for a in rest:
+        if a[0] == "quant" and a[1] == "within" and len(a) == 5:
+            within.setdefault(a[2].rsplit(".chars", 1)[0].rsplit(".bytes", 1)[0] if a[2].endswith((".chars", ".bytes")) else a[2], []).append(a)
+        else:
+            rest2.append(a)
+    for reg, lst in sorted(within.items()):
+        if len(lst) == 1:
+            rest2.append(lst[0])
+            continue
+        from .funeval import parse_class, class_str
+        parsed = [parse_class(a[3]) for a in lst]
+        if any(p_ is None for p_ in parsed) or not any(p_[2] is False or p_[0] == "elems" for p_ in parsed):
+            rest2 += lst
+            continue
+        # at least one member is ASCII-only, so the intersection is ASCII-only and unit-free
+        vals = None
+        for unit, cs, na in parsed:
+            cs = frozenset(v for v in cs if v < 128)
+            vals = cs if vals is None else vals & cs
+        rest2.append(("quant", "within", reg, "elems%s" % class_str(vals), True))
+    rest = rest2
     tags = {}
     for a in rest:
         if a[0] in ("some", "none", "ok", "err"):
@@ -156,13 +194,13 @@ def _case_symbols(sy, atoms, extra_strs=()):
     strs = [atom_str(a) for a in atoms] + list(extra_strs)
     cands = []
     uw = [n for n in list(sy.sym_terms) if n.startswith("Option::<T>::unwrap_or(") and unwrap_or_cases(sy, n)]
-    names = list(sy.phi_defs) + [n for n, (kind, P, k) in sy.divrem.items() if kind == "rem" and k <= 4] + uw
+    names = list(sy.phi_defs) + [n for n, (kind, P, k) in sy.divrem.items() if kind == "rem" and k <= 4] + uw + list(sy.b2i)
     for n in names:
         occ = [x for x in strs if n in x]
         if not occ:
             continue
         bare = _re.compile(r"^%s( - \d+)? (==|!=) 0$" % _re.escape(n))
-        if n in sy.phi_defs or n in uw or any(not bare.match(x) for x in occ):
+        if n in sy.phi_defs or n in uw or n in sy.b2i or any(not bare.match(x) for x in occ):
             cands.append(n)
     # a candidate nested in another candidate's name is expanded through the outer one first
     cands = [n for n in cands if not any(n != m and n in m for m in cands)]
@@ -260,6 +298,12 @@ def case_envs(sy, path, value_of=None, env=None, depth=0):
         elif n in sy.divrem:
             kind, P, k = sy.divrem[n]
             choices.append([(n, c, [rel_atom(Poly.sym(n) - Poly.const(c), "==")]) for c in range(k)])
+        elif n in sy.b2i:
+            # a comparison used as a number: the two truth values as cases, each with the comparison as its guard
+            from .sym import cmp_to_rel
+            op, pa, pb = sy.b2i[n]
+            neg = {"Lt": "Ge", "Le": "Gt", "Gt": "Le", "Ge": "Lt", "Eq": "Ne", "Ne": "Eq"}[op]
+            choices.append([(n, 1, [cmp_to_rel(op, pa, pb)]), (n, 0, [cmp_to_rel(neg, pa, pb)])])
         else:
             uc = unwrap_or_cases(sy, n)
             if uc:
